@@ -440,6 +440,8 @@ def main(tier):
             c02.rule_AB(ck, {name: u})   # per-level scratch of the multigrid cycle is history-free (shared with C02)
     cu = ir.run_units([dict(name='controls', src=os.path.join(T, 'controls.cpp'))], 'C15c')
     rule_F(ck, units, cu['controls'])
+    import coverage
+    coverage.rule_cover(ck, units, control=cu['controls'])      # a member that is only resize()d is rebuilt without a gap (QR workspace; shared by C09 / C15 / C16)
     ck.assumptions += ['arrays of vectors / scalars are treated per array, not per element (a kill of one element counts for the array)',
                        'member objects with their own methods (QR, nested solvers) are analysed in their own classes',
                        'callee effects are derived bottom-up from the instantiated bodies; recursion is closed coinductively',
